@@ -211,6 +211,9 @@ func one(cfg Config) *Result {
 						switch r.n(4) {
 						case 0, 1:
 							_, op, err := b.AddComment(fmt.Sprintf("comment g%d k%d", g, k))
+							if err != nil && op != nil {
+								maybe(g, n, op.Id()) // the call failed after the operation was staged: its fate is open
+							}
 							if err == nil {
 								err = b.Commit()
 								if err != nil {
@@ -224,6 +227,9 @@ func one(cfg Config) *Result {
 							ack(g, n, op.Id())
 						case 2:
 							op, err := b.SetTitle(fmt.Sprintf("title g%d k%d word%dx%dx%d", g, k, g, k, round))
+							if err != nil && op != nil {
+								maybe(g, n, op.Id())
+							}
 							if err == nil {
 								err = b.Commit()
 								if err != nil {
